@@ -309,7 +309,13 @@ def rule_same_bytes(ctx):
                 if meth in ("size", "begin", "end", "operator[]", "empty", "at", "cbegin", "cend"):
                     continue
                 r.seen()
-                allowed = (f.key == w.key and meth == "push_back") or (f.qn == "uncrustify_end" and meth == "clear")
+                def only_from_end(g, depth=0):
+                    """g is uncrustify_end, or a helper all of whose callers are (helpers of) uncrustify_end"""
+                    if g.qn == "uncrustify_end":
+                        return True
+                    cs0 = db.callers_of_key(g.key)
+                    return depth < 2 and bool(cs0) and all(only_from_end(h0, depth + 1) for h0, _c in cs0)
+                allowed = (f.key == w.key and meth == "push_back") or (meth == "clear" and only_from_end(f))
                 r.check(allowed, "cpd.bout-%s-in/%s" % (meth, f.qn), db.loc(f, n), "%s calls %s on the check buffer" % (f.qn, meth))
     # cpd.fout is assigned only in output_text from its parameter
     for f in db.funcs.values():
